@@ -74,8 +74,11 @@ CHECKS = {
  "C12": dict(
    text="Proof (Coq): executable model of iwexfile.c (three-way split per mmap slot, shared/private windows, truncate, ensure_size, "
         "add/remove mmap, resize policies with their C arithmetic, chunked copy) refined to a flat byte array for every call sequence with "
-        "shared windows; split_covers, size invariants, IW_RANGES_OVERLAP (translated from the current source) = interval intersection. "
-        "Tied by differential execution of the extracted model against the implementation and an independent flat-array oracle.",
+        "shared windows; split_covers, size invariants, IW_RANGES_OVERLAP (translated from the current source) = interval intersection; every theorem "
+        "holds for every operating-system oracle that may refuse a growth, and a refused growth answers an error and changes nothing "
+        "(refused_growth_unchanged). "
+        "Tied by differential execution of the extracted model against the implementation and an independent flat-array oracle, with growth "
+        "refusals injected through RLIMIT_FSIZE (model and implementation) and RLIMIT_AS (implementation only).",
    design="5/C12",
    note=TB + "Side conditions of the theorems: arguments in [0, 2^61], page size a power of two. Private (MAP_PRIVATE) windows have no theorem: "
         "they are compared byte for byte with the model and checked by the oracle between remaps only. mmap/pread coherence of the kernel is trusted.",
@@ -84,16 +87,18 @@ CHECKS = {
    text="Proof (Coq) over a model of the JSON parser (iwjser.c: value/key/number branches, two-pass unescape, BOM, nesting limit) and printer "
         "(iwjson.c: string escaping with the per-byte tables regenerated from the source, integers via iwitoa): unescape_correct, print_parse "
         "(parse (print v) = v for any bytes, all flags, depth <= 999), parse_valid for an RFC 8259 reference grammar (integers), print_in_grammar, "
-        "print_ascii with the code-point flag, iwitoa/strtoll round trip, utf8proc encoder/decoder. Tied by differential execution and a python "
-        "json reference oracle.",
+        "print_ascii with the code-point flag, iwitoa/strtoll round trip, utf8proc encoder/decoder; the scanner of iwstrtod loop by loop: it stops on a "
+        "non-digit for every input and consumes every RFC 8259 number completely (number_scan_stops, number_scan_maximal). Tied by differential "
+        "execution and a python json reference oracle (token structure first, then values).",
    design="5/C13",
    note=TB + "Doubles are carried as 64 bit patterns: number->double conversion and double printing are oracle inputs supplied by the harness (libc/libm are "
         "trusted, not modelled); documents with non-integer numbers are compared structurally. iwstrtod is not correctly rounded (0.3): recorded, outside the theorems.",
    technique="Coq proofs (induction, finite sweeps over regenerated byte tables) + extracted-model vs implementation correspondence + reference-parser oracle"),
  "C14": dict(
    text="Proof (Coq) over byte-level models of the binn writer/reader subset the library produces, the JSON pointer parser and both look-up visitors: "
-        "binn_roundtrip (decode (encode v) = v), clone equality, ptr_parse = RFC 6901 tokens, at_agree (tree and binary look-ups both equal the RFC 6901 referent). "
-        "Tied by byte-for-byte comparison of the encoder with the implementation and an independent python binn reader / RFC 6901 oracle.",
+        "binn_roundtrip (decode (encode v) = v), clone equality, ptr_parse = RFC 6901 tokens, at_agree (tree and binary look-ups both equal the RFC 6901 referent), "
+        "at_producer_independent. Tied by byte-for-byte comparison of the encoder with the implementation, an independent python binn reader / RFC 6901 oracle "
+        "and a matrix of every producer of a tree or binary document x every look-up function exported by iwjson.h.",
    design="5/C14",
    note=TB + "Hypotheses: documents well-formed for the binary form (keys <= 255 bytes, unique ignoring case), arrays < 2^31 elements, pointers with at most 999 "
         "segments and no '*' segment. Totality of the encoder and print_agree are not proved (oracle compares the printed texts); clone independence is oracle-only.",
